@@ -4,13 +4,13 @@ use cgmath::prelude::*;
 use cgmath::{Matrix2, Matrix3, Matrix4, Quaternion, Vector1, Vector2, Vector3, Vector4};
 use num_traits::Float;
 
-use crate::conv::*;
-use crate::fw::{Case, Clause};
-use crate::gen::{self, Rng, Tier};
-use crate::iv::Tri;
-use crate::model::*;
-use crate::sc::{Ck, Rat, Sc};
-use crate::{clause, clause_iv};
+use cgv_core::conv::*;
+use cgv_core::fw::{Case, Clause};
+use cgv_core::gen::{self, Rng, Tier};
+use cgv_core::iv::Tri;
+use cgv_core::model::*;
+use cgv_core::sc::{Ck, Rat, Sc};
+use cgv_core::{clause, clause_iv};
 
 // ---------------------------------------------------------------- lerp (exact)
 
